@@ -5,6 +5,7 @@ import (
 	"fmt"
 	"sort"
 	"strings"
+	"time"
 
 	v1 "k8s.io/api/core/v1"
 	apierrors "k8s.io/apimachinery/pkg/api/errors"
@@ -32,6 +33,15 @@ type K8s struct {
 	// OnConflict, if set, is called when an update is refused by an injected conflict: it plays
 	// the concurrent writer whose write caused the conflict (it may change the stored node)
 	OnConflict func(stored *v1.Node)
+	// Latency: every node API request takes this long to reach the server (virtual time inside a
+	// synctest bubble); journal entries carry the time the server processed the request
+	Latency time.Duration
+}
+
+func (k *K8s) travel() {
+	if k.Latency > 0 {
+		time.Sleep(k.Latency)
+	}
 }
 
 // NewK8s creates an empty API state.
@@ -87,6 +97,7 @@ func brief(n *v1.Node) string {
 }
 
 func (c *nodeClient) Get(_ context.Context, name string, _ metav1.GetOptions) (*v1.Node, error) {
+	c.k.travel()
 	cur := c.k.Nodes[name]
 	e := Entry{Kind: KGet, Node: name}
 	if cur != nil {
@@ -111,6 +122,7 @@ func (c *nodeClient) update(kind string, node *v1.Node) (*v1.Node, error) {
 		c.k.J.Add(Entry{Kind: kind, Err: "nil object"})
 		return nil, apierrors.NewBadRequest("nil node")
 	}
+	c.k.travel()
 	cur := c.k.Nodes[node.Name]
 	e := Entry{Kind: kind, Node: node.Name, Sent: node.DeepCopy(), SentBrief: brief(node)}
 	if cur != nil {
@@ -148,6 +160,7 @@ func (c *nodeClient) UpdateStatus(_ context.Context, node *v1.Node, _ metav1.Upd
 }
 
 func (c *nodeClient) Delete(_ context.Context, name string, _ metav1.DeleteOptions) error {
+	c.k.travel()
 	cur := c.k.Nodes[name]
 	e := Entry{Kind: KDelete, Node: name}
 	if cur != nil {
